@@ -21,6 +21,7 @@ type ReplaySpec struct {
 	Test   string            `json:"test"`   // test source file relative to /verif/replay
 	Run    string            `json:"run"`    // test name
 	Values map[string]string `json:"values"` // name -> specification expression (entry state)
+	Assume string            `json:"assume,omitempty"` // optional: a specification expression (entry state) that narrows the search for a model to the domain of the harness; a model found under it is still a model of the refuted obligation
 }
 
 func loadReplaySpec(verif, fn string) *ReplaySpec {
@@ -63,6 +64,20 @@ func modelValues(o *Obligation, rs *ReplaySpec) (map[string]string, string, erro
 	base := u.Query(o)
 	if o.Status != "sat" {
 		base = u.CandidateQuery(o)
+	}
+	if rs.Assume != "" {
+		if e, err := ParseExpr(rs.Assume); err == nil {
+			var t Term
+			nf := len(u.Facts)
+			if err := catch(func() { env := u.entryEnv(); t = env.value(env.eval(e)).T }); err == nil {
+				// hypotheses created while evaluating (well-formedness of the slices it reads) belong to the query
+				for _, f := range u.Facts[nf:] {
+					base += "(assert " + f + ")\n"
+				}
+				base += "(assert " + t + ")\n"
+			}
+			u.Facts = u.Facts[:nf]
+		}
 	}
 	q := base + "(check-sat)\n(get-value (" + strings.Join(terms, " ") + "))\n"
 	dir, err := os.MkdirTemp("", "kvr")
